@@ -176,6 +176,7 @@ class Prover:
     def __init__(self):
         self.ranges = {}    # term -> (lo|None, hi|None)
         self.minmax = {}    # term -> ("min"|"max", LinA, LinB)
+        self.ops = {}       # ("op", name, keyA, keyB) -> (LinA, LinB)
         self.floats = set() # terms that are real-valued
 
     # -- intervals ----------------------------------------------------
